@@ -85,6 +85,7 @@ def check_step(ctx, cls):
         lv = _arr_levels(b.gen, arr.name) + [x for _k, (_p, v) in b.over.items() for x in _arr_levels(v, arr.name)]
         ok = bool(lv) and all(x == i for x in lv)
         ctx.check(ok, "C04-b", q + ":right-hand side level", where, "the right-hand side derives from level i only", signature="rhs level", levels=[nf.show(x) for x in lv])
+        check_rhs_is_previous_level(ctx, "C04-b", q, where, b, arr, it)
         # matrix: mesh ratio and diffusivity argument
         rows = rows_of(A, b.length)
         gen_row = rows["r"]
@@ -131,6 +132,22 @@ def check_step(ctx, cls):
             signature="storage dtype", creator=arr.creator, dtype=dt_s or "default",
         )
     return 1
+
+
+def check_rhs_is_previous_level(ctx, rule, q, where, b, arr, it):
+    """interior entries of the right-hand side are the previous level, at most clipped from above at
+    the initial pseudopressure (an identity for exact solves by the maximum principle)"""
+    i = nf.sym("i")
+    U = nf.fn("[]", nf.sym(arr.name), i, nf.sym("@J"))
+    mi = nf.sym("self.fluid.m_i")
+    allowed = [U, nf.fn("minimum", *sorted([U, mi], key=repr))]
+    ok = any(b.gen == a for a in allowed)
+    extra = [nf.show(pos) for _k, (pos, _v) in b.over.items() if nf.as_int(pos) != 0]
+    ctx.check(
+        ok and not extra, rule, q + ":right-hand side values", where,
+        "away from the frac-face node the right-hand side is the stored previous level itself (optionally min(level, m_i)); it is not clipped from below, clipped at constants, or otherwise altered",
+        signature="rhs altered", rhs=nf.show(b.gen, 200), other_overrides=extra,
+    )
 
 
 def _strip_alpha(ratio):
